@@ -359,9 +359,6 @@ def quirkLetter : Quirk → Char
   | .seqNumZero => 's' | .ackNumNonZero => 'A' | .ackNumZero => 'a' | .nonZeroURG => 'u' | .urg => 'U'
   | .push => 'p' | .ownTimestampZero => 't' | .peerTimestampNonZero => 'T' | .trailingNonZero => 'x'
   | .excessiveWindowScaling => 'w' | .optBad => 'b'
-def letterSet (cs : List Char) : String :=
-  String.ofList ("abcdefghijklmnopqrstuvwxyzATU".toList.filter (fun c => cs.contains c))
-
 /-- Arm of `process` taken, for coverage: version, role, window arm, option shape, and the sets of
 layout tokens (`L=`) and quirks (`Q=`) emitted. -/
 def processTag (f : Fields) : String :=
@@ -381,9 +378,19 @@ def processTag (f : Fields) : String :=
     let o := match sig with
       | some s => if s.olayout.isEmpty then "noopt" else if s.olayout.any (fun o => match o with | .eol _ => true | _ => false) then "eol" else "opts"
       | none => "-"
-    let ls := match sig with | some s => letterSet (s.olayout.map optLetter) | none => ""
-    let qs := match sig with | some s => letterSet (s.quirks.map quirkLetter) | none => ""
-    s!"{v}:{role}:{w}:{o}{if r.mtu.isSome then ":mtu" else ""}|L={ls}|Q={qs}|"
+    -- one of the 8 layout tokens / 17 quirks is singled out per case (rotating with the input), so that
+    -- the tag space stays small while every token and quirk is seen both present and absent
+    let focus := (f.tcp.seq + f.tcp.window + f.tcp.opts.length + f.ip.ttl + f.tcp.flags) % 25
+    let suffix := match sig with
+      | none => ""
+      | some s =>
+        if focus < 8 then
+          let c := "enmwkatu".toList.getD focus 'e'
+          s!"|L{if (s.olayout.map optLetter).contains c then "+" else "-"}{c}"
+        else
+          let c := "dizeofsAauUptTxw".toList.getD (focus - 8) 'd'
+          s!"|Q{if (s.quirks.map quirkLetter).contains c then "+" else "-"}{c}"
+    s!"{v}:{role}:{w}:{o}{if r.mtu.isSome then ":mtu" else ""}{suffix}"
 
 /-! ### frame decoding (pnet accessors) -/
 
